@@ -102,6 +102,13 @@ impl TorrentMaps {
         let mut statistics_messages = Vec::new();
         let mut opt_scrape_export_writer = if export_full_scrape {
             match File::create(config.scrape_exports.tmp_path()) {
+                #[cfg(aquatic_verif)]
+                Ok(file) => {
+                    aquatic_common::verif::probe("udp.export.created");
+
+                    Some(BufWriter::new(file))
+                }
+                #[cfg(not(aquatic_verif))]
                 Ok(file) => Some(BufWriter::new(file)),
                 Err(err) => {
                     ::log::error!(
@@ -155,6 +162,9 @@ impl TorrentMaps {
         }
 
         if let Some(mut w) = opt_scrape_export_writer.take() {
+            #[cfg(aquatic_verif)]
+            aquatic_common::verif::probe("udp.export.before_flush");
+
             if let Err(err) = w.flush() {
                 ::log::error!(
                     "Could not flush writes to temporary scrape export file at path {}: {:?}",
@@ -163,6 +173,9 @@ impl TorrentMaps {
                 );
             } else {
                 drop(w);
+
+                #[cfg(aquatic_verif)]
+                aquatic_common::verif::probe("udp.export.before_rename");
 
                 if let Err(err) = ::std::fs::rename(
                     config.scrape_exports.tmp_path(),
@@ -174,6 +187,9 @@ impl TorrentMaps {
                         err
                     );
                 }
+
+                #[cfg(aquatic_verif)]
+                aquatic_common::verif::probe("udp.export.renamed");
             }
         }
     }
@@ -223,6 +239,9 @@ impl<I: Ip> TorrentMapShards<I> {
             }
         };
 
+        #[cfg(aquatic_verif)]
+        aquatic_common::verif::probe("udp.swarm.announce.gap");
+
         let mut peer_map = peer_map.write();
 
         peer_map.announce(
@@ -242,6 +261,9 @@ impl<I: Ip> TorrentMapShards<I> {
         };
 
         for info_hash in request.info_hashes {
+            #[cfg(aquatic_verif)]
+            aquatic_common::verif::probe("udp.swarm.scrape.gap");
+
             let torrent_map_shard = self.get_shard(&info_hash);
 
             let statistics = if let Some(peer_map) = torrent_map_shard.read().get(&info_hash) {
@@ -289,6 +311,9 @@ impl<I: Ip> TorrentMapShards<I> {
                 .map(|(info_hash, peers)| (*info_hash, peers.clone()))
                 .collect::<Vec<_>>();
 
+            #[cfg(aquatic_verif)]
+            aquatic_common::verif::probe("udp.swarm.clean.refs");
+
             for (info_hash, peer_map) in torrent_references {
                 let mut peer_map = peer_map.write();
 
@@ -313,6 +338,9 @@ impl<I: Ip> TorrentMapShards<I> {
 
                 // Allow other threads to access the peer map again
                 drop(peer_map);
+
+                #[cfg(aquatic_verif)]
+                aquatic_common::verif::probe("udp.swarm.clean.peer_map_done");
 
                 let num_peers = num_seeders + num_leechers;
 
@@ -339,6 +367,9 @@ impl<I: Ip> TorrentMapShards<I> {
                                 err
                             );
                         }
+
+                        #[cfg(aquatic_verif)]
+                        aquatic_common::verif::probe("udp.export.line");
                     }
                 }
 
@@ -349,6 +380,9 @@ impl<I: Ip> TorrentMapShards<I> {
         // Now, remove torrents that are forbidden by the access list or which
         // have no peers. This unavoidably locks a whole shard at a time.
         for torrent_map_shard in self.0.iter() {
+            #[cfg(aquatic_verif)]
+            aquatic_common::verif::probe("udp.swarm.clean.phase2_shard");
+
             let mut torrent_map_shard = torrent_map_shard.write();
 
             torrent_map_shard.retain(|info_hash, peer_map| {
